@@ -1,7 +1,9 @@
 import AsmjitVerif.Model.Offset
 import AsmjitVerif.Spec.Offset
+import AsmjitVerif.Spec.A64Imm
 import Driver.Common
 open AsmjitVerif.Offset
+open AsmjitVerif.A64Imm
 namespace Driver.C17
 
 def parseFmt : List String → Option (OffsetFormat × List String)
@@ -21,37 +23,150 @@ def encOut (f : OffsetFormat) (off : BitVec 64) : String :=
     | some m => "ok " ++ toHex m.toNat
     | none => "fail"
 
-def step (_ : Unit) (line : String) : Unit × String :=
-  match words line with
+/-- all values `DecodeBitMasks` can produce (64-bit ops), resp. their low halves for N = 0 (32-bit ops) -/
+def allLogical64 : List (BitVec 64) := Id.run do
+  let mut out := []
+  for n in [false, true] do
+    for s in List.range 64 do
+      if decodeBitMasksValid n (BitVec.ofNat 6 s) then
+        for r in List.range 64 do
+          out := decodeBitMasksValue n (BitVec.ofNat 6 s) (BitVec.ofNat 6 r) :: out
+  return out
+def allLogical32 : List (BitVec 64) := Id.run do
+  let mut out := []
+  for s in List.range 64 do
+    if decodeBitMasksValid false (BitVec.ofNat 6 s) then
+      for r in List.range 64 do
+        out := (decodeBitMasksValue false (BitVec.ofNat 6 s) (BitVec.ofNat 6 r) &&& 0xFFFFFFFF#64) :: out
+  return out
+
+structure Tables where
+  log64 : Array Nat
+  log32 : Array Nat
+
+def mkTables : Tables :=
+  { log64 := (allLogical64.map (·.toNat)).toArray.qsort (· < ·),
+    log32 := (allLogical32.map (·.toNat)).toArray.qsort (· < ·) }
+
+def hexWords (ws : List (BitVec 32)) : String := " ".intercalate (ws.map fun w => toHex w.toNat)
+
+def bv64? (s : String) : Option (BitVec 64) := (parseHex? s).map (BitVec.ofNat 64)
+def bv32? (s : String) : Option (BitVec 32) := (parseHex? s).map (BitVec.ofNat 32)
+
+def fpBits (b : String) : Option Nat := match b with | "16" => some 16 | "32" => some 32 | "64" => some 64 | _ => none
+def isFp (bits : Nat) (v : BitVec 64) : Bool := if bits = 16 then isFp16Imm8 v else if bits = 32 then isFp32Imm8 v else isFp64Imm8 v
+def encFp (bits : Nat) (v : BitVec 64) : BitVec 32 :=
+  if bits = 16 then encodeFp16ToImm8 v else if bits = 32 then encodeFp32ToImm8 v else encodeFp64ToImm8 v
+
+/-- model answers for the AArch64 immediate ops -/
+def stepA64 (ws : List String) : Option String :=
+  match ws with
+  | ["logimm", v, w] => do
+    let v ← bv64? v; let w ← w.toNat?
+    if w ≠ 32 ∧ w ≠ 64 then none else
+    match encodeLogicalImm v w with
+    | some e => some s!"ok {e.n.toNat} {e.s.toNat} {e.r.toNat}"
+    | none => some "fail"
+  | ["addsub", v] => do let v ← bv64? v; some (if isAddSubImm v then "1" else "0")
+  | ["fp", b, v] => do
+    let b ← fpBits b; let v ← bv64? v
+    some (if isFp b v then s!"1 {(encFp b v).toNat}" else "0")
+  | ["bytemask", v] => do
+    let v ← bv64? v
+    some (if isByteMaskImm v then s!"1 {(encodeByteMaskToImm8 v).toNat}" else "0")
+  | ["movseq", imm, rd, x] => do
+    let imm ← bv64? imm; let rd ← rd.toNat?; let x ← x.toNat?
+    some ("seq " ++ hexWords (encodeMovSequence64 imm (BitVec.ofNat 32 rd) (BitVec.ofNat 32 x)))
+  | ["lmh", sz, idx] => do
+    let sz ← sz.toNat?; let idx ← idx.toNat?
+    match encodeLmh (BitVec.ofNat 32 sz) (BitVec.ofNat 32 idx) with
+    | some (ok, lm, h, mx) => some s!"{if ok then 1 else 0} {lm.toNat} {h.toNat} {mx.toNat}"
+    | none => some "fail"
+  | _ => none
+
+/-- monitors: the property predicate on the implementation's answer -/
+def monA64 (t : Tables) (ws : List String) : Option String :=
+  let verdict (b : Bool) (why : String) := some (if b then "good" else "BAD " ++ why)
+  match ws with
+  | "mon_logimm" :: v :: w :: ans => do
+    let v ← bv64? v; let w ← w.toNat?
+    let tbl := if w = 64 then t.log64 else t.log32
+    let representable := tbl.binSearchContains v.toNat (· < ·)
+    match ans with
+    | ["fail"] => verdict (!representable) "refused-but-encodable"
+    | ["ok", n, s, r] =>
+      let n ← n.toNat?; let s ← s.toNat?; let r ← r.toNat?
+      if n ≥ 2 ∨ s ≥ 64 ∨ r ≥ 64 ∨ (w = 32 ∧ n ≠ 0) then verdict false "field-overflow" else
+      let ok := decodeBitMasksValid (n == 1) (BitVec.ofNat 6 s)
+      let val := decodeBitMasksValue (n == 1) (BitVec.ofNat 6 s) (BitVec.ofNat 6 r)
+      let val := if w = 32 then val &&& 0xFFFFFFFF#64 else val
+      verdict (ok && val == v) "decodes-to-other-value"
+    | _ => none
+  | ["mon_addsub", v, ans] => do
+    let v ← bv64? v
+    let repr := v.toNat < 4096 || (v.toNat % 4096 == 0 && v.toNat / 4096 < 4096)
+    verdict ((ans == "1") == repr) "addsub-verdict"
+  | "mon_fp" :: b :: v :: ans => do
+    let b ← fpBits b; let v ← bv64? v
+    let repr := (List.range 256).any fun i => vfpExpandImm b (BitVec.ofNat 8 i) == v
+    match ans with
+    | ["0"] => verdict (!repr) "refused-but-encodable"
+    | ["1", i] => do let i ← i.toNat?; verdict (i < 256 && vfpExpandImm b (BitVec.ofNat 8 i) == v) "wrong-imm8"
+    | _ => none
+  | "mon_bytemask" :: v :: ans => do
+    let v ← bv64? v
+    let repr := (List.range 8).all fun k => let b := (v.toNat >>> (8 * k)) % 256; b == 0 || b == 255
+    match ans with
+    | ["0"] => verdict (!repr) "refused-but-encodable"
+    | ["1", i] => do let i ← i.toNat?; verdict (i < 256 && byteMaskExpand (BitVec.ofNat 8 i) == v) "wrong-imm8"
+    | _ => none
+  | "mon_movseq" :: imm :: rd :: x :: "seq" :: wordsHex => do
+    let imm ← bv64? imm; let rd ← rd.toNat?; let _x ← x.toNat?
+    let ws ← wordsHex.mapM bv32?
+    -- from two different initial register contents: the result may not depend on the old value
+    let r1 := execMovSeq (BitVec.ofNat 32 rd) 0xdeadbeefcafef00d#64 ws
+    let r2 := execMovSeq (BitVec.ofNat 32 rd) 0x0123456789abcdef#64 ws
+    verdict (ws.length ≥ 1 && ws.length ≤ 4 && r1.1 && r1.2 == imm && r2.2 == imm) "sequence-does-not-load-the-value"
+  | _ => none
+
+def step (t : Tables) (line : String) : Tables × String :=
+  let ws := words line
+  match stepA64 ws with
+  | some o => (t, o)
+  | none =>
+  match monA64 t ws with
+  | some o => (t, o)
+  | none =>
+  match ws with
   | "enc" :: rest =>
     match parseFmt rest with
     | some (f, [off]) =>
       match parseHex? off with
-      | some o => ((), encOut f (BitVec.ofNat 64 o))
-      | none => ((), "bad-op")
-    | _ => ((), "bad-op")
+      | some o => (t, encOut f (BitVec.ofNat 64 o))
+      | none => (t, "bad-op")
+    | _ => (t, "bad-op")
   | "write" :: rest =>
     match parseFmt rest with
     | some (f, [off, pos, buf]) =>
       match parseHex? off, pos.toNat?, hexToBytes? buf with
       | some o, some p, some b =>
         match writeOffset b p (BitVec.ofNat 64 o) f with
-        | some b' => ((), "ok " ++ bytesToHex b')
-        | none => ((), "fail")
-      | _, _, _ => ((), "bad-op")
-    | _ => ((), "bad-op")
+        | some b' => (t, "ok " ++ bytesToHex b')
+        | none => (t, "fail")
+      | _, _, _ => (t, "bad-op")
+    | _ => (t, "bad-op")
   | "mon" :: rest =>
     -- mon <fmt> <off hex> (ok <mask hex> | fail): the property predicate on the implementation's answer
     match parseFmt rest with
     | some (f, off :: ans) =>
       match parseHex? off, ans with
-      | some o, ["fail"] => ((), if monitor f (BitVec.ofNat 64 o) none then "good" else "BAD refused-but-representable")
+      | some o, ["fail"] => (t, if monitor f (BitVec.ofNat 64 o) none then "good" else "BAD refused-but-representable")
       | some o, ["ok", m] =>
         match parseHex? m with
-        | some m => ((), if monitor f (BitVec.ofNat 64 o) (some (BitVec.ofNat 64 m)) then "good" else "BAD wrong-field")
-        | none => ((), "bad-op")
-      | _, _ => ((), "bad-op")
-    | _ => ((), "bad-op")
+        | some m => (t, if monitor f (BitVec.ofNat 64 o) (some (BitVec.ofNat 64 m)) then "good" else "BAD wrong-field")
+        | none => (t, "bad-op")
+      | _, _ => (t, "bad-op")
+    | _ => (t, "bad-op")
   | "range" :: rest =>
     -- range <fmt> <lo hex> <count> <step hex>: FNV of all results of enc on lo, lo+step, ...
     match parseFmt rest with
@@ -59,12 +174,12 @@ def step (_ : Unit) (line : String) : Unit × String :=
       match parseHex? lo, cnt.toNat?, parseHex? st with
       | some lo, some cnt, some st =>
         let h := (List.range cnt).foldl (fun h i => fnvStr h (encOut f (BitVec.ofNat 64 (lo + i * st)))) fnvInit
-        ((), "hash " ++ toHex h.toNat)
-      | _, _, _ => ((), "bad-op")
-    | _ => ((), "bad-op")
-  | _ => ((), "bad-op")
+        (t, "hash " ++ toHex h.toNat)
+      | _, _, _ => (t, "bad-op")
+    | _ => (t, "bad-op")
+  | _ => (t, "bad-op")
 
 def main : IO Unit := do
-  lineLoop (← IO.getStdin) (← IO.getStdout) () step
+  lineLoop (← IO.getStdin) (← IO.getStdout) mkTables step
 
 end Driver.C17
